@@ -23,7 +23,7 @@ const REP_OPS = [
   { tpl: 'a.toUpperCase()', kind: 'none' }
 ]
 const REP_OPS_Q = REP_OPS.slice(0, 8)
-const CONFIGS = ['FULL', 'PLUS_ONLY', 'TPL_ONLY', 'METHODS_ONLY', 'RENAMED', 'COMMENTS', 'NOTHING']
+const CONFIGS = ['FULL', 'PLUS_ONLY', 'TPL_ONLY', 'METHODS_ONLY', 'RENAMED', 'COMMENTS', 'NOTHING', 'SHARED_DST']
 const SCOPE_NAMES = Object.keys(G.SCOPES)
 const STMT_NAMES = Object.keys(G.STMTCTX)
 const ASYNC_STMTS = new Set(['async', 'async_fn'])
